@@ -220,7 +220,7 @@ pub fn worker(property: &str, tier: &str, w: usize, n: usize, start_at: usize) -
             if !seen_keys.insert(format!("{}|{}", v.class, v.group)) {
                 continue; // same mechanism already reported (with a replay) by this worker
             }
-            let (min, execs) = if sum.shrinks < 6 { shrink::shrink(&trace, &key, &ctx, 200, 45) } else { (trace.clone(), 0) };
+            let (min, execs) = if sum.shrinks < 6 { shrink::shrink(&trace, &key, &ctx, 800, 60) } else { (trace.clone(), 0) };
             sum.shrinks += 1;
             // the minimised trace must still reproduce (it does by construction); take the details from its own run
             let out2 = execute(&min, &ctx);
